@@ -1,4 +1,5 @@
 import XsgModel.Proofs.History
+import XsgModel.Proofs.SpecOf
 /-!
 # C03 — Optional / Vec / text inference is exact, not merely safe
 
@@ -24,6 +25,18 @@ theorem C03_exact (d : Doc) (ds : List Doc) (h : historyOk (d :: ds)) :
   obtain ⟨R', hR', hm', -⟩ := extend_fold ds R [d.root] (by simp) hm
     (fun d' hd' => ⟨hok d' (by simp [hd']), by rw [hn]; exact hnames d' (by simp [hd']) d (by simp)⟩)
   exact ⟨R', hR', by simpa using hm'⟩
+
+/-- the same statement through the *executable* specification: the schema of the parsed tree (counters
+forgotten, children in `position` order) is literally `specOfDocs` of the document roots — the function the
+correspondence check evaluates on the DOM of the generated documents ("presence in all occurrences / more than
+once in some occurrence / any text", computed without counters, snapshots or `known` lists), field order included -/
+theorem C03_spec_exact (H : List Doc) (h : historyOk H) :
+    ∃ t, parseHistory (H.map Doc.events) = .ok t ∧ t.abs = specOfDocs (H.map (·.root)) :=
+  parse_abs_eq_spec H h
+
+/-- `Matches` and `specOf` agree at every position and every depth -/
+theorem C03_matches_spec {t : Elem} {occs : List Node} (h : Matches t occs) (hne : occs ≠ []) (fuel : Nat)
+    (hd : ∀ o ∈ occs, o.depth ≤ fuel) : t.abs = specOf fuel occs := abs_eq_specOf h fuel hne hd
 
 /-- every position of the tree is exact for the occurrences of that position (nesting) -/
 theorem C03_nested {t : Elem} {occs : List Node} (h : Matches t occs) (k : Name) (nec : Nec) (c : Elem)
